@@ -18,11 +18,11 @@ BPdo == {<<"P", <<"trig", 1>>>>, <<"P", <<"wr", "a", <<7>>>>>>, <<"P", <<"wr", "
          <<"P", <<"rpdo", 517, <<6, 0, 0, 0, 0, 0, 0, 0>>>>>>, <<"P", <<"rpdo", 773, D1>>>>, <<"P", <<"rpdo", 518, D1>>>>, <<"P", <<"rd", "l">>>>, <<"P", <<"rd", "b">>>>}
 BCfg == {<<"P", <<"cfg", "evt", TRUE, 1, 0>>>>, <<"P", <<"cfg", "evt", TRUE, 1, 2>>>>, <<"P", <<"cfg", "cid", TRUE, 1, <<133, 1, 0, 192>>>>>>, <<"P", <<"cfg", "cid", TRUE, 1, <<133, 1, 0, 64>>>>>>,
          <<"P", <<"cfg", "cid", FALSE, 1, <<5, 2, 0, 128>>>>>>, <<"P", <<"cfg", "cid", FALSE, 1, <<5, 2, 0, 0>>>>>>, <<"P", <<"cfg", "type", FALSE, 1, 254>>>>, <<"P", <<"cfg", "type", FALSE, 1, 1>>>>,
-         <<"P", <<"cfg", "sid", TRUE, 1, <<128, 0, 0, 64>>>>>>, <<"P", <<"cfg", "sid", TRUE, 1, <<128, 0, 0, 0>>>>>>, <<"P", <<"cfg", "scyc", TRUE, 1, 3000>>>>, <<"P", <<"cfg", "scyc", TRUE, 1, 0>>>>,
+         <<"P", <<"cfg", "sid", TRUE, 1, <<128, 0, 0, 64>>>>>>, <<"P", <<"cfg", "sid", TRUE, 1, <<128, 0, 0, 0>>>>>>, <<"P", <<"cfg", "scyc", TRUE, 1, 3000>>>>, <<"P", <<"cfg", "scyc", TRUE, 1, 0>>>>, <<"P", <<"cfg", "sid", TRUE, 1, <<129, 0, 0, 64>>>>>>, <<"P", <<"cfg", "sid", TRUE, 1, <<129, 0, 0, 0>>>>>>,
          <<"P", <<"rdcfg", "scyc", TRUE, 1>>>>, <<"P", <<"rdcfg", "sid", TRUE, 1>>>>}
 BEmcy == {<<"E", <<"set", k, <<>>>>>> : k \in {1, 8, 9, 11}} \cup {<<"E", <<"clr", k>>>> : k \in {1, 8, 9, 11}} \cup {<<"E", <<"reset", FALSE>>>>, <<"E", <<"reset", TRUE>>>>, <<"E", <<"cnt">>>>,
           <<"E", <<"rdreg">>>>, <<"E", <<"rdhist", 1>>>>, <<"E", <<"wrhist", 0>>>>, <<"E", <<"wrid", FALSE>>>>, <<"E", <<"wrid", TRUE>>>>}
-BGroups == <<BNmt, BStart, BStart, BReset, GMode, GTick, GTick, GTick, GTick, BHb, BHb, GApp, BPdo, BPdo, GSync, BCfg, BEmcy, GCsdo, GSrv, GSrv>>
+BGroups == <<BNmt, BStart, BStart, BReset, GMode, GInit, GTick, GTick, GTick, GTick, BHb, BHb, GApp, BPdo, BPdo, GSync, BCfg, BEmcy, GCsdo, GSrv, GSrv>>
 BLook == << <<"pool">>, <<"N", <<"getmode">>>>, <<"N", <<"sdord", 4119, 0>>>>, <<"N", <<"sdord", 4118, 1>>>>, <<"N", <<"sdord", 4118, 2>>>>, <<"P", <<"rdcfg", "sid", TRUE, 1>>>>, <<"P", <<"rdcfg", "cid", TRUE, 1>>>>,
             <<"E", <<"rdreg">>>>, <<"E", <<"cnt">>>>, <<"E", <<"rdhist", 0>>>>, <<"C", <<"state">>>>,
             <<"N", <<"hb", 10, 5>>>>, <<"N", <<"hb", 11, 5>>>>, <<"P", <<"trig", 1>>>>, <<"P", <<"rpdo", 517, D1>>>>, <<"P", <<"sync", 128>>>>, <<"P", <<"sync", 128>>>>,
